@@ -10,6 +10,8 @@ types x payload shapes) inserted at every gap of a known encoding.
 from __future__ import annotations
 
 import itertools
+
+import betterproto
 from typing import Any, Dict, List, Tuple
 
 from vf.core import absval as av
@@ -302,6 +304,115 @@ def _shard_b(shard: int, nshards: int, extra) -> Tally:
     return t
 
 
+# ---------------------------------------------------------------------------
+# part D: field-number sweep - one unknown record of EVERY field number in a range
+# part E: one instance decoding twice (parse / parse, and two delimited loads)
+
+def sweep_numbers(quick: bool) -> List[int]:
+    top = 2**29 - 1
+    nums = set(range(1, 70001 if quick else 600001))
+    for k in range(1, 30):
+        nums.update({2**k - 1, 2**k, 2**k + 1})
+    return sorted(n for n in nums if 1 <= n <= top and n not in (5, 100))
+
+
+def number_class(n: int) -> str:
+    if 19000 <= n <= 19999:
+        return "number-19000..19999"
+    return f"tag-bytes-{len(wire.tag(n, 0))}"
+
+
+def eval_number(n: int, tally: Tally):
+    schema, bp, ref = state()
+    K = schema.msg("K")
+    kv = {"k1": 7, "k2": "x"}
+    base = wire.tokenize(av.make_ref(schema, ref, K, kv).SerializeToString())
+    fails = []
+    for wt, payload in ((wire.VARINT, 3), (wire.LEN, b"ab")) if n % 2 else ((wire.FIXED32, b"\x01\x02\x03\x04"), (wire.FIXED64, b"\x01\x02\x03\x04\x05\x06\x07\x08")):
+        rec = wire.make_rec(n, wt, payload)
+        recs = [base[0], rec] + list(base[1:])
+        data = wire.join(recs)
+        try:
+            o = bp.K().parse(data)
+            back = bytes(o)
+            tally.inc("edges", 2)
+        except Exception as e:
+            fails.append(("decode", f"record {rec.raw.hex()}: {type(e).__name__}: {e}"[:200]))
+            continue
+        if not av.aval_eq(av.project_bp(schema, K, o), av.normalize(schema, K, kv)):
+            fails.append(("known-disturbed", f"record {rec.raw.hex()}: known fields read {o!r}"[:200]))
+        if [r.raw for r in wire.tokenize(back) if r.number not in (5, 100)] != [rec.raw]:
+            fails.append(("unknown-not-preserved", f"record {rec.raw.hex()} re-emitted as {back.hex()[:60]}"))
+    return fails
+
+
+def _shard_d(shard: int, nshards: int, quick) -> Tally:
+    t = Tally()
+    nums = sweep_numbers(quick)
+    for idx in range(shard, len(nums), nshards):
+        n = nums[idx]
+        t.inc("cases")
+        for oracle, detail in eval_number(n, t):
+            t.violate(Violation(["unknown-number", oracle, number_class(n)], f"field number {n}: {detail}"[:400],
+                                {"part": "D", "n": n}), cap_per_sig=1)
+    return t
+
+
+TWICE_INPUTS = None
+
+
+def twice_inputs():
+    global TWICE_INPUTS
+    if TWICE_INPUTS is None:
+        schema, bp, ref = state()
+        K = schema.msg("K")
+        u = [wire.make_rec(7, wire.VARINT, 1), wire.make_rec(8, wire.LEN, b"zz"), wire.make_rec(2047, wire.FIXED32, b"\x01\x02\x03\x04")]
+        outs = []
+        for kv in ({}, {"k1": 3}, {"k2": "q"}):
+            base = list(wire.tokenize(av.make_ref(schema, ref, K, kv).SerializeToString()))
+            outs.append((kv, base))
+            for r in u:
+                outs.append((kv, base + [r]))
+                outs.append((kv, [r] + base))
+            outs.append((kv, [u[0]] + base + [u[1]]))
+        TWICE_INPUTS = outs
+    return TWICE_INPUTS
+
+
+def eval_twice(i: int, j: int, how: str, tally: Tally):
+    """ONE instance decodes input i and then input j: the unknown fields of both are kept, in
+    order; known scalars: the later one wins (what the reference's MergeFromString gives)."""
+    import io
+    schema, bp, ref = state()
+    K = schema.msg("K")
+    (kv1, r1), (kv2, r2) = twice_inputs()[i], twice_inputs()[j]
+    d1, d2 = wire.join(r1), wire.join(r2)
+    fails = []
+    try:
+        o = bp.K()
+        if how == "parse":
+            o.parse(d1)
+            o.parse(d2)
+        else:
+            s = io.BytesIO(wire.delimited(d1) + wire.delimited(d2))
+            o.load(s, betterproto.SIZE_DELIMITED)
+            o.load(s, betterproto.SIZE_DELIMITED)
+        back = bytes(o)
+        tally.inc("edges", 3)
+    except Exception as e:
+        return [("decode-twice", f"{type(e).__name__}: {e}"[:200])]
+    r = ref.cls("K").FromString(d1)
+    r.MergeFromString(d2)
+    want_known = av.project_ref(schema, K, r)
+    if not av.aval_eq(av.project_bp(schema, K, o), want_known):
+        fails.append(("twice-known", f"known fields {o!r}, reference merge gives {av.to_jsonable(want_known)!r}"[:300]))
+    want_unknown = [x.raw for x in r1 + r2 if x.number not in (5, 100)]
+    got_unknown = [x.raw for x in wire.tokenize(back) if x.number not in (5, 100)]
+    if got_unknown != want_unknown:
+        fails.append(("twice-unknown-lost", f"unknown records after two decodes {[x.hex() for x in got_unknown]}, expected {[x.hex() for x in want_unknown]}"[:300]))
+    return fails
+
+
 NN_VALUES = [
     {"one": {"a": 1}}, {"one": {"s": "x", "a": -1}}, {"many": [{"a": 1}, {}, {"s": "q"}]},
     {"by": {"k": {"a": 5}}}, {"by": {"": {"s": "z"}, "k": {}}}, {"one": {"a": 2}, "many": [{"a": 3}], "by": {"k": {"a": 4}}, "v": 9},
@@ -346,10 +457,21 @@ def run(ctx: Ctx) -> None:
         for oracle, detail in eval_nested_evolution(v, tc):
             tc.violate(Violation(["evolution", oracle, "nested-type-without-fields"],
                                  f"NN value={av.to_jsonable(v)!r}: {detail}"[:500], {"part": "C", "vi": vi}))
-    for t in (ta, tb, tc):
+    td = merge_tallies(pmap_shards(_shard_d, 64, ctx.quick))
+    te = Tally()
+    n_in = len(twice_inputs())
+    for i in range(n_in):
+        for j in range(n_in):
+            for how in ("parse", "load"):
+                te.inc("cases")
+                for oracle, detail in eval_twice(i, j, how, te):
+                    te.violate(Violation(["decode-twice", oracle, how], f"inputs {wire.join(twice_inputs()[i][1]).hex()} then "
+                                         f"{wire.join(twice_inputs()[j][1]).hex()}: {detail}"[:500],
+                                         {"part": "E", "i": i, "j": j, "how": how}), cap_per_sig=1)
+    for t in (ta, tb, tc, td, te):
         for vj in t.violations:
             ctx.add(Violation.from_json(vj))
-    states = ta.n.get("cases", 0) + tb.n.get("cases", 0) + tc.n.get("cases", 0)
+    states = sum(t.n.get("cases", 0) for t in (ta, tb, tc, td, te))
     ctx.coverage.update(
         states=states,
         transitions=ta.n.get("edges", 0) + tb.n.get("edges", 0),
@@ -360,6 +482,8 @@ def run(ctx: Ctx) -> None:
         older_schemas_per_newer=32,
         unknown_insertion_cases=tb.n.get("cases", 0),
         unknown_record_alphabet=len(unknown_alphabet()),
+        field_numbers_swept=td.n.get("cases", 0),
+        decode_twice_cases=te.n.get("cases", 0),
         explained_by_smaller_deletion=ta.n.get("explained_by_smaller_deletion", 0),
         samples=ta.samples[:3] + tb.samples[:3],
         rule="state = (newer schema, value, subset of fields the older schema keeps) or "
@@ -379,6 +503,11 @@ def replay(case: dict) -> List[Violation]:
     if case["part"] == "C":
         return [Violation(["evolution", o, "nested-type-without-fields"], d, case)
                 for o, d in eval_nested_evolution(NN_VALUES[case["vi"]], t)]
+    if case["part"] == "D":
+        return [Violation(["unknown-number", o, number_class(case["n"])], d, case) for o, d in eval_number(case["n"], t)]
+    if case["part"] == "E":
+        return [Violation(["decode-twice", o, case["how"]], d, case)
+                for o, d in eval_twice(case["i"], case["j"], case["how"], t)]
     if case["part"] == "A":
         v = av.from_jsonable(case["value"])
         for oracle, detail in eval_evolution(case["name"], v, case["mask"], t):
